@@ -517,7 +517,7 @@ CHECKFN = 'check'
 # ------------------------------------------------------------------ generators
 # includes names that are valid Unicode but not NFC-normalised (a combining mark, the Angstrom and Ohm signs): names are stored as given
 NAMEPOOL = ['a', 'b', 'c', 'd', 'e', 'ab', 'a b', 'é', 'data', 'dim0', 'x', 'node', 'metadata', 'A', '_tmp_a', 'n1', 'n2', 'n3', 'k', 'q',
-            'e\u0301', 'd_\u212b', '\u2126m']
+            'e\u0301', 'd_\u212b', '\u2126m', 'dim9', 'dimensions']
 TOK = [100]
 
 
